@@ -11,6 +11,8 @@ import Frost.Model.Repair
 import Frost.Props.C15
 import Frost.Props.C17
 import Frost.Props.C19
+import Frost.Proofs.Draws
+import Frost.Ref.Bip340
 
 set_option linter.unusedSectionVars false
 
@@ -272,6 +274,49 @@ theorem defaultSign_draws (S : Suite F E) (sk : F) (tape tape' : Tape) (msg : By
 /-- the randomizer seed is one draw of scalar length (C17), the batch blinders are one draw
     per item (C19), the signing nonces two 32-byte draws per pair (C15) -/
 theorem other_entry_points : True := trivial
+
+/-! ### the hypothesis `PrefixDraw` holds for the `Field::random` model of every suite
+
+  curve25519-dalek / ed448-goldilocks: one wide draw reduced mod the order; k256 / p256: 32-byte
+  blocks, every block that is not below the order DISCARDED, the first one below it taken as it
+  is (`Frost.Ref.randomRejection_prefix`: never a fixed fallback value, never a reduction). -/
+
+theorem prefixDraw_ed25519 : PrefixDraw Frost.Ref.ed25519Suite := by
+  intro t v t' h
+  obtain ⟨b, hb, _, hr⟩ := Frost.Ref.randomWide_prefix _ _ t v t' h
+  exact ⟨b, hb, hr⟩
+
+theorem prefixDraw_ristretto255 : PrefixDraw Frost.Ref.ristrettoSuite := by
+  intro t v t' h
+  obtain ⟨b, hb, _, hr⟩ := Frost.Ref.randomWide_prefix _ _ t v t' h
+  exact ⟨b, hb, hr⟩
+
+theorem prefixDraw_ed448 : PrefixDraw Frost.Ref.ed448Suite := by
+  intro t v t' h
+  obtain ⟨b, hb, _, hr⟩ := Frost.Ref.randomWide_prefix _ _ t v t' h
+  exact ⟨b, hb, hr⟩
+
+theorem prefixDraw_p256 : PrefixDraw Frost.Ref.p256Suite := by
+  intro t v t' h
+  exact Frost.Ref.randomRejection_prefixDraw _ t v t' h
+
+theorem prefixDraw_secp256k1 : PrefixDraw Frost.Ref.secp256k1Suite := by
+  intro t v t' h
+  exact Frost.Ref.randomRejection_prefixDraw _ t v t' h
+
+theorem prefixDraw_secp256k1_tr : PrefixDraw Frost.Ref.secp256k1TrSuite := by
+  intro t v t' h
+  exact Frost.Ref.randomRejection_prefixDraw _ t v t' h
+
+/-- what a rejection-sampling backend returns: the value of the first 32-byte block below the
+    order, after a run of discarded blocks none of which is below it -/
+theorem rejection_sampling_spec (q fuel : Nat) (t : Tape) (v : Frost.Ref.Fq q) (t' : Tape)
+    (h : Frost.Ref.randomRejection q fuel t = some (v, t')) :
+    ∃ (rejected : List Bytes) (acc : Bytes),
+      t = rejected.flatten ++ acc ++ t' ∧ acc.length = 32 ∧ Frost.Ref.beToNat acc < q ∧
+      v = ⟨Frost.Ref.beToNat acc⟩ ∧ ∀ r ∈ rejected, r.length = 32 ∧ ¬ Frost.Ref.beToNat r < q := by
+  obtain ⟨rej, acc, h1, h2, h3, h4, h5, _⟩ := Frost.Ref.randomRejection_prefix q fuel t v t' h
+  exact ⟨rej, acc, h1, h2, h3, h4, h5⟩
 
 /-! Non-vacuity: the example suite's `Field::random` (one byte per draw) has the prefix
     property on non-empty tapes. -/
